@@ -344,6 +344,20 @@ def balance_part(ctx, wallet_states):
                 bad.append(('balance', "get_balance = %s but unspent outputs paying wallet keys total %s (unused %d, annotated %d "
                             "keys)" % (got, exp, len(unused), len(ann)), trace))
                 break
+            # ... also after this wallet object has built a spend that is not in the chain (the outputs are still unspent)
+            if exp >= 4:
+                from skepticoin.wallet import create_spend_transaction
+                try:
+                    create_spend_transaction(w, cs, 3, 0, K[2].pk, K[1].pk)
+                    n += 1
+                    got2 = w.get_balance(cs)
+                except Exception as e:
+                    got2 = exp if 'nsufficient' in str(e) else 'raises %r' % (e,)
+                if got2 != exp:
+                    bad.append(('balance', "after this wallet object built a (not yet mined) spend, get_balance = %s on the same chain "
+                                "state, unspent outputs paying wallet keys still total %s" % (got2, exp), trace))
+                    break
+                w = Wallet({k.pub: k.priv for k in KEYS}, list(unused), dict(ann))
     return n, bad
 
 
